@@ -65,6 +65,16 @@ D = {
     "C22c": ("fsolve scales the residual with |x| instead of |f|", "unknowns of large magnitude and newton_rtol > 0: a residual far above tolerance is accepted as converged"),
     "C25c": ("Revolute.plane_axes = np.delete((0,1,2), axis) instead of the cyclic roll", "axis = 1: the plane axes come out as (0, 2) instead of (2, 0), so the measured angle changes sign"),
     "C27c": ("estimate_prox_parameter writes the result into an array of W's dtype", "an integer-typed or float32 W: the prox parameters are truncated (to 0 for r < 1)"),
+    "C02c": ("Log_SO3 near half-turns: n n^T from the exact half-turn formula 0.25 (A + A^T) + 0.5 I (same idea as seeded/C02b, found independently)", "rotation angle in (3.0969, pi - 1e-4) about an axis that is not a coordinate axis"),
+    "C19c": ("Rattle.R_x1 evaluates h at u_n instead of u_n+1/2 in stage 1 (same slip as seeded/C19b, found independently)", "velocity-dependent forces: gyroscopic torque of an asymmetric rigid body tumbling in 3D"),
+    "C23d": ("rod J_P: rotational block -(A_IB B_r_CP)~ instead of -A_IB (B_r_CP)~", "a force or joint attached to a rod with an offset from the centerline (B_r_CP != 0); equilibrium residuals stay consistent, frame indifference is lost"),
+    "C28d": ("system_from_urdf: transport term of child.v_R uses J_omega_JRc instead of J_omega_IRc (same slip as seeded/C28c, found independently)", "a displaced prismatic / planar / floating joint below a rotating parent"),
+    "C10d": ("CosseratRod_PetrovGalerkin.E_pot_el divides the cached strains in place (same slip as seeded/C10b, found independently)", "E_pot evaluated before another quantity at the same nodal coordinates, reference stretch J != 1, few elements (cache entries survive)"),
+    "C14d": ("rod: constant_mass_matrix and the CooMatrix accumulator move from _M_coo to __init__, so every assemble() appends the element mass matrices again", "a system containing a Cosserat rod assembled more than once (explicit second assemble, set_new_initial_state, add/remove + assemble)"),
+    "C17d": ("fixed_point_iteration without the defensive copies (same slip as seeded/C22b, found independently)", "DualStormerVerlet(accelerated=False) on a constrained system: the in-place map makes the increment 0 after one Newton step"),
+    "C21d": ("fsolve: `converged = True; if error >= 1: <loop> else: converged = False` - equivalent over the reals, not for NaN", "a residual that is NaN/inf already at the initial guess (excitation table left, sqrt/log force law out of domain): success=True, no warning"),
+    "C24d": ("Spring.assembler_callback: `self.l_ref = self.l_ref or default`", "a spring whose rest length / angle is exactly 0 (explicit 0, or defaulted on a joint with angle0 = 0): replaced at the first assembly of a two-point interaction and at every restart"),
+    "C26d": ("RigidBody.r_OP returns q[:3] (a view of the caller's array) for a zero offset (same idea as seeded/C26c, found independently)", "the caller updates q in place and asks again for the old values: cache hit on a live view"),
     "C22b": ("fixed_point_iteration calls fun(x) without the defensive copy", "a fixed-point map that updates its argument in place (DualStormerVerlet's own map with accelerated=False does)"),
 }
 rows = []
